@@ -54,14 +54,15 @@ class SDateTime:
 
 
 class STimedelta:
-    """timedelta as a total number of seconds (microseconds not modelled)."""
-    __slots__ = ('total',)
+    """timedelta as days*86400 + secs (unnormalised; microseconds not modelled)."""
+    __slots__ = ('days', 'secs')
 
-    def __init__(self, total):
-        self.total = total
+    def __init__(self, days, secs=0):
+        self.days = days
+        self.secs = secs
 
     def __repr__(self):
-        return f'STimedelta<{self.total}>'
+        return f'STimedelta<{self.days}d,{self.secs}s>'
 
 
 class Obj:
@@ -155,12 +156,13 @@ class SSeq:
 
 class SArr:
     """Symbolic-length list backed by an SMT array Int->T plus a length (for index-heavy loops)."""
-    __slots__ = ('arr', 'n', 'elem')
+    __slots__ = ('arr', 'n', 'elem', 'arr2')
 
-    def __init__(self, arr, n, elem):
+    def __init__(self, arr, n, elem, arr2=None):
         self.arr = arr
         self.n = n
         self.elem = elem
+        self.arr2 = arr2       # for elem 'dt': arr = ordinals, arr2 = seconds of day
 
     def __repr__(self):
         return f'SArr<{self.elem} n={self.n}>'
